@@ -1521,3 +1521,215 @@ Proof.
   match goal with |- context [if ?b then _ else _] => destruct b end; [eexists; reflexivity|].
   apply flex_loop_total. match goal with |- (cnt ?l < S (length ?l))%nat => pose proof (cnt_le_length l); lia end.
 Qed.
+
+(* ================= main-axis order / no overlap ================= *)
+Definition triple : Type := (Item * XQ * XQ).     (* item (after alignment), its size.main, its location.main *)
+
+(* b lies after a, their margin boxes separated by at least `sep` *)
+Definition sepR (sep : Q) (a b : triple) : Prop :=
+  let '(i, si, pi) := a in let '(j, sj, pj) := b in
+  val pi + val si + val (fi_margin_end i) + val (fi_margin_start j) + sep <= val pj.
+
+Definition pos_prem (c : Item) : Prop :=
+  finite (fi_margin_start c) /\ finite (fi_margin_end c) /\ finite (fi_inset c) /\ finite (fi_offset c) /\
+  0 <= val (fi_margin_start c) /\ 0 <= val (fi_margin_end c) /\ val (fi_inset c) == 0.
+
+Lemma place_length (t : XQ) (l : list (Item * XQ)) : length (place t l) = length l.
+Proof. revert t. induction l as [|[it s] l IH]; intro t; simpl; auto. Qed.
+
+(* every position produced after `total` lies at least sep + margin_start beyond it, when all offsets are >= sep >= 0 *)
+Lemma place_lower (sep : Q) (l : list (Item * XQ)) : 0 <= sep ->
+  (forall it s, In (it, s) l -> pos_prem it /\ finite s /\ 0 <= val s /\ sep <= val (fi_offset it)) ->
+  forall total, finite total ->
+  Forall (fun '(it, s, p) => finite p /\ val total + sep + val (fi_margin_start it) <= val p) (combine l (place total l)).
+Proof.
+  intros Hs. induction l as [|[it s] l IH]; intros Hl total Ft; cbn [place combine]; [constructor|].
+  destruct (Hl it s (or_introl eq_refl)) as [[F1 [F2 [F3 [F4 [P1 [P2 Z]]]]]] [Fs [Ps Po]]].
+  destruct (add_fin total _ Ft F4) as [A1 A2]. destruct (add_fin _ _ A1 F1) as [B1 B2]. destruct (add_fin _ _ B1 F3) as [C1 C2].
+  destruct (add_fin _ _ F1 F2) as [M1 M2]. destruct (add_fin _ _ F4 M1) as [D1 D2]. destruct (add_fin _ _ D1 Fs) as [E1 E2].
+  destruct (add_fin total _ Ft E1) as [G1 G2].
+  constructor.
+  - split; [exact C1|]. rewrite C2, B2, A2. lra.
+  - specialize (IH (fun it' s' Hi => Hl it' s' (or_intror Hi)) _ G1).
+    unfold margin_sum. eapply Forall_impl; [|exact IH]. intros [[it' s'] p'] [Fp Lp]. split; [assumption|].
+    rewrite G2, E2, D2, M2 in Lp. lra.
+Qed.
+
+Lemma place_pairs (sep : Q) (l : list (Item * XQ)) : 0 <= sep ->
+  (forall it s, In (it, s) l -> pos_prem it /\ finite s /\ 0 <= val s) ->
+  (* every item but the first has offset >= sep *)
+  (match l with [] => True | _ :: r => forall it s, In (it, s) r -> sep <= val (fi_offset it) end) ->
+  forall total, finite total -> ForallOrdPairs (sepR sep) (combine l (place total l)).
+Proof.
+  intros Hs. induction l as [|[it s] l IH]; intros Hl Ho total Ft; cbn [place combine]; [constructor|].
+  destruct (Hl it s (or_introl eq_refl)) as [[F1 [F2 [F3 [F4 [P1 [P2 Z]]]]]] [Fs Ps]].
+  destruct (add_fin total _ Ft F4) as [A1 A2]. destruct (add_fin _ _ A1 F1) as [B1 B2]. destruct (add_fin _ _ B1 F3) as [C1 C2].
+  destruct (add_fin _ _ F1 F2) as [M1 M2]. destruct (add_fin _ _ F4 M1) as [D1 D2]. destruct (add_fin _ _ D1 Fs) as [E1 E2].
+  destruct (add_fin total _ Ft E1) as [G1 G2].
+  constructor.
+  - assert (H1 : forall it' s', In (it', s') l -> pos_prem it' /\ finite s' /\ 0 <= val s' /\ sep <= val (fi_offset it')).
+    { intros it' s' Hi. destruct (Hl it' s' (or_intror Hi)) as [a [b c]].
+      split; [exact a|]. split; [exact b|]. split; [exact c|]. apply (Ho it' s' Hi). }
+    pose proof (place_lower sep l Hs H1 _ G1) as PL. unfold margin_sum in *.
+    eapply Forall_impl; [|exact PL]. intros [[it' s'] p'] [Fp Lp]. unfold sepR.
+    rewrite G2, E2, D2, M2 in Lp. rewrite C2, B2, A2. lra.
+  - apply IH; [intros it' s' Hi; apply Hl; right; assumption| |assumption].
+    destruct l as [|[it1 s1] r]; [exact I|]. intros it' s' Hi. apply (Ho it' s'). right. assumption.
+Qed.
+
+Lemma ForallOrdPairs_app {A} (R : A -> A -> Prop) l1 l2 :
+  ForallOrdPairs R l1 -> ForallOrdPairs R l2 -> (forall x y, In x l1 -> In y l2 -> R x y) -> ForallOrdPairs R (l1 ++ l2).
+Proof.
+  induction 1; simpl; intros H2 H3; [assumption|]. constructor.
+  - apply Forall_app. split; [assumption|]. apply Forall_forall. intros y Hy. apply H3; auto.
+  - apply IHForallOrdPairs; auto.
+Qed.
+Lemma ForallOrdPairs_rev {A} (R : A -> A -> Prop) l : ForallOrdPairs R l -> ForallOrdPairs (fun x y => R y x) (rev l).
+Proof.
+  induction 1; simpl; [constructor|]. apply ForallOrdPairs_app; [assumption|repeat constructor|].
+  intros x y Hx [<-|[]]. apply in_rev in Hx. rewrite Forall_forall in H. apply H. assumption.
+Qed.
+
+(* the offset of a non-first item is at least the gap *)
+Lemma alignment_offset_ge_gap (free gap : XQ) n mode rv : finite free -> finite gap -> (2 <= n)%Z ->
+  finite (compute_alignment_offset free n gap mode rv false) /\
+  val gap <= val (compute_alignment_offset free n gap mode rv false).
+Proof.
+  intros Ff Fg Hn. unfold compute_alignment_offset.
+  destruct (fmax_fin free zero Ff fin_zero) as [M1 M2]. rewrite val_zero in M2.
+  assert (Mp : 0 <= val (fmax free zero)) by (rewrite M2; unfold qmx; destruct (Qle_bool 0 (val free)) eqn:E; [apply Qle_bool_iff in E; assumption | lra]).
+  assert (DV : forall d, (1 <= d)%Z -> finite (div (fmax free zero) (of_Z d)) /\ 0 <= val (div (fmax free zero) (of_Z d))).
+  { intros d Hd. destruct (of_Z_fin d) as [Z1 Z2].
+    assert (Dp : 0 < inject_Z d) by (replace 0 with (inject_Z 0) by reflexivity; rewrite <- Zlt_Qlt; lia).
+    destruct (div_fin (fmax free zero) (of_Z d) M1 Z1) as [D1 D2]; [rewrite Z2; lra|].
+    split; [assumption|]. rewrite D2, Z2. apply Qle_shift_div_l; [assumption|lra]. }
+  destruct mode;
+    try (destruct (add_fin gap zero Fg fin_zero) as [A1 A2]; split; [exact A1 | rewrite A2, val_zero; lra]).
+  - destruct (DV (n - 1)%Z ltac:(lia)) as [D1 D2]. destruct (add_fin gap _ Fg D1) as [A1 A2]. split; [exact A1|rewrite A2; lra].
+  - destruct (DV (n + 1)%Z ltac:(lia)) as [D1 D2]. destruct (add_fin gap _ Fg D1) as [A1 A2]. split; [exact A1|rewrite A2; lra].
+  - destruct (DV n ltac:(lia)) as [D1 D2]. destruct (add_fin gap _ Fg D1) as [A1 A2]. split; [exact A1|rewrite A2; lra].
+Qed.
+
+Lemma alignment_offset_first_fin (free gap : XQ) n mode rv : finite free -> finite gap -> (1 <= n)%Z ->
+  finite (compute_alignment_offset free n gap mode rv true).
+Proof.
+  intros Ff Fg Hn. unfold compute_alignment_offset.
+  assert (DV : forall (x : XQ) d, finite x -> (1 <= d)%Z -> finite (div x (of_Z d))).
+  { intros x d Fx Hd. destruct (of_Z_fin d) as [Z1 Z2].
+    assert (Dp : 0 < inject_Z d) by (replace 0 with (inject_Z 0) by reflexivity; rewrite <- Zlt_Qlt; lia).
+    apply (div_fin x (of_Z d) Fx Z1). rewrite Z2. lra. }
+  destruct mode; try exact fin_zero; try assumption; try (destruct rv; (exact fin_zero || assumption)).
+  - apply DV; [assumption|lia].
+  - destruct (leb zero free); apply DV; try assumption; try lia.
+  - destruct (leb zero free); [apply DV; [apply DV; [assumption|lia]|lia] | apply DV; [assumption|lia]].
+Qed.
+
+Definition oprem (c : Item) : Prop :=
+  finite (fi_margin_start c) /\ finite (fi_margin_end c) /\ finite (fi_inset c) /\ finite (fi_outer_target c) /\
+  0 <= val (fi_margin_start c) /\ 0 <= val (fi_margin_end c) /\ val (fi_inset c) == 0 /\
+  fi_margin_start_auto c = false /\ fi_margin_end_auto c = false.
+
+Definition justify_item (free gap : XQ) n mode rv (is_first : bool) (c : Item) : Item :=
+  set_offset c (compute_alignment_offset free n gap mode rv is_first).
+
+Lemma forward_line (items : list Item) (free gap : XQ) n mode rv (sizes : list XQ) (start : XQ) :
+  finite free -> finite gap -> 0 <= val gap -> finite start -> n = zlen items ->
+  (forall c, In c items -> oprem c) -> (forall s, In s sizes -> finite s /\ 0 <= val s) ->
+  let items' := map_first (justify_item free gap n mode rv true) (justify_item free gap n mode rv false) items in
+  ForallOrdPairs (sepR (val gap)) (combine (combine items' sizes) (place start (combine items' sizes))).
+Proof.
+  intros Ff Fg Gp Fs Hn Hp Hs items'.
+  assert (J : forall b c, oprem c -> finite (compute_alignment_offset free n gap mode rv b) -> pos_prem (justify_item free gap n mode rv b c)).
+  { intros b c [A1 [A2 [A3 [A4 [A5 [A6 [A7 _]]]]]]] Fo. unfold pos_prem, justify_item. fi_simpl. repeat split; assumption. }
+  apply place_pairs; try assumption.
+  - intros it s Hi. pose proof (in_combine_l _ _ _ _ Hi) as H1. pose proof (in_combine_r _ _ _ _ Hi) as H2.
+    split; [|apply Hs; assumption].
+    unfold items', map_first in H1. destruct items as [|x r]; [destruct H1|].
+    assert (N1 : (1 <= n)%Z) by (rewrite Hn; unfold zlen; simpl; lia).
+    destruct H1 as [<- | H1].
+    + apply J; [apply Hp; left; reflexivity | apply alignment_offset_first_fin; assumption].
+    + apply in_map_iff in H1. destruct H1 as [c [<- Hc]]. apply J; [apply Hp; right; assumption|].
+      assert (N2 : (2 <= n)%Z) by (rewrite Hn; unfold zlen; destruct r; [destruct Hc | simpl; lia]).
+      apply alignment_offset_ge_gap; assumption.
+  - unfold items', map_first. destruct items as [|x r]; [exact I|]. cbn [combine].
+    destruct sizes as [|s0 st]; [exact I|]. intros it s Hi. pose proof (in_combine_l _ _ _ _ Hi) as H1.
+    apply in_map_iff in H1. destruct H1 as [c [<- Hc]]. unfold justify_item. fi_simpl.
+    assert (N2 : (2 <= n)%Z) by (rewrite Hn; unfold zlen; destruct r; [destruct Hc | simpl; lia]).
+    apply alignment_offset_ge_gap; assumption.
+Qed.
+
+Lemma combine_app' {A B} (a1 a2 : list A) (b1 b2 : list B) : length a1 = length b1 ->
+  combine (a1 ++ a2) (b1 ++ b2) = combine a1 b1 ++ combine a2 b2.
+Proof.
+  revert b1. induction a1; destruct b1; simpl; intro H; try discriminate; auto. f_equal. apply IHa1. lia.
+Qed.
+Lemma combine_rev' {A B} (a : list A) (b : list B) : length a = length b -> combine (rev a) (rev b) = rev (combine a b).
+Proof.
+  revert b. induction a; destruct b; simpl; intro H; try discriminate; auto.
+  rewrite combine_app' by (rewrite !rev_length; lia). rewrite IHa by lia. reflexivity.
+Qed.
+
+Lemma map_first_length {A B} (f g : A -> B) l : length (map_first f g l) = length l.
+Proof. destruct l; simpl; [reflexivity|]. rewrite map_length. reflexivity. Qed.
+
+Lemma count_auto_zero (items : list Item) : (forall c, In c items -> oprem c) -> count_auto items = 0%Z.
+Proof.
+  unfold count_auto.
+  assert (G : forall z, (forall c, In c items -> oprem c) ->
+    fold_left (fun (n : Z) (c : Item) => (n + (if fi_margin_start_auto c then 1 else 0) + (if fi_margin_end_auto c then 1 else 0))%Z) items z = z).
+  { induction items as [|a l IH]; intros z Hp; simpl; [reflexivity|].
+    destruct (Hp a (or_introl eq_refl)) as [_ [_ [_ [_ [_ [_ [_ [E1 E2]]]]]]]]. rewrite E1, E2.
+    replace (z + 0 + 0)%Z with z by lia. apply IH. intros c Hc. apply Hp. right. assumption. }
+  apply G.
+Qed.
+
+Theorem order_no_overlap (items : list Item) (gap inner start : XQ) (jc : option AlignContent) (rv : bool) (sizes : list XQ) :
+  finite gap -> 0 <= val gap -> finite inner -> finite start ->
+  (forall c, In c items -> oprem c) ->
+  length sizes = length items -> (forall s, In s sizes -> finite s /\ 0 <= val s) ->
+  let items' := distribute_remaining_free_space items gap inner jc rv in
+  let pos := line_positions start rv (combine items' sizes) in
+  Forall2 (fun c c' => fi_margin_start c' = fi_margin_start c /\ fi_margin_end c' = fi_margin_end c) items items' /\
+  ForallOrdPairs (fun a b => if rv then sepR (val gap) b a else sepR (val gap) a b) (combine (combine items' sizes) pos).
+Proof.
+  intros Fg Gp Fi Fs Hp Hl Hs. cbv zeta.
+  unfold distribute_remaining_free_space.
+  rewrite (count_auto_zero items Hp). rewrite andb_false_r.
+  set (n := zlen items) in *.
+  set (free := sub inner (add (sum_axis_gaps gap n) (fsum (map fi_outer_target items)))) in *.
+  set (mode := apply_alignment_fallback free n (match jc with Some j => j | None => AC_FlexStart end) false) in *.
+  change (fun (is_first : bool) (c : Item) => set_offset c (compute_alignment_offset free n gap mode rv is_first))
+    with (justify_item free gap n mode rv).
+  cbv zeta.
+  assert (Ff : finite free).
+  { unfold free. destruct (fsum_fin fi_outer_target items) as [A1 _]; [intros c Hc; apply (Hp c Hc)|].
+    apply sub_fin; [assumption|]. apply add_fin; [apply sum_axis_gaps_fin; assumption | assumption]. }
+  assert (MF : forall l : list Item, Forall2 (fun c c' => fi_margin_start c' = fi_margin_start c /\ fi_margin_end c' = fi_margin_end c) l
+            (map_first (justify_item free gap n mode rv true) (justify_item free gap n mode rv false) l)).
+  { intros l. destruct l as [|x r]; simpl; constructor; [split; reflexivity|].
+    induction r; simpl; constructor; [split; reflexivity | assumption]. }
+  destruct rv.
+  - (* reverse: the same forward layout on the reversed lists *)
+    set (ritems' := map_first (justify_item free gap n mode true true) (justify_item free gap n mode true false) (rev items)) in *.
+    assert (L1 : length ritems' = length sizes) by (unfold ritems'; rewrite map_first_length, rev_length; lia).
+    change (map_first (fun c : Item => set_offset c (compute_alignment_offset free n gap mode true true))
+                      (fun c : Item => set_offset c (compute_alignment_offset free n gap mode true false)) (rev items)) with ritems'.
+    split.
+    + specialize (MF (rev items)). fold ritems' in MF.
+      rewrite <- (rev_involutive items) at 1. clear - MF. revert MF. generalize (rev items) ritems'.
+      intros a b H. induction H; simpl; [constructor|]. apply Forall2_app; [assumption|]. constructor; [assumption|constructor].
+    + unfold line_positions.
+      assert (E1 : rev (combine (rev ritems') sizes) = combine ritems' (rev sizes)).
+      { rewrite <- (rev_involutive sizes) at 1. rewrite combine_rev' by (rewrite rev_length; lia). apply rev_involutive. }
+      rewrite E1. set (L := combine ritems' (rev sizes)).
+      assert (FW : ForallOrdPairs (sepR (val gap)) (combine L (place start L))).
+      { apply forward_line; try assumption.
+        - unfold n, zlen. rewrite rev_length. reflexivity.
+        - intros c Hc. apply Hp. apply in_rev. assumption.
+        - intros s Hs'. apply Hs. apply in_rev. assumption. }
+      assert (E2 : combine (combine (rev ritems') sizes) (rev (place start L)) = rev (combine L (place start L))).
+      { rewrite <- combine_rev' by (rewrite place_length; reflexivity). f_equal. unfold L.
+        rewrite <- combine_rev' by (rewrite rev_length; lia). rewrite rev_involutive. reflexivity. }
+      rewrite E2. apply ForallOrdPairs_rev in FW. exact FW.
+  - split; [apply MF|]. unfold line_positions. apply forward_line; try assumption. reflexivity.
+Qed.
